@@ -947,14 +947,15 @@ def _ods_row(row):
 
 
 def ods_expand(rows):
-    """Cell values of a sheet spec after wrapper flattening and repeat expansion, row by row (what a reader sees)."""
+    """Non-empty cell values of a sheet spec after wrapper flattening and repeat expansion, row by row."""
     out = []
     for row in rows:
         if isinstance(row, tuple) and row and row[0] == "wrap":
             out += ods_expand(row[2])
         elif isinstance(row, dict):
-            vals = [v for r, v in row["cells"] for _ in range(max(r, 0))]
-            out += [list(vals) for _ in range(max(row.get("repeat", 1), 0))]
+            vals = [v for r, v in row["cells"] if v is not None for _ in range(max(r, 0))]   # None cells carry no text
+            if vals:
+                out += [list(vals) for _ in range(max(row.get("repeat", 1), 0))]
         else:
             out.append(list(row))
     return out
@@ -1522,9 +1523,11 @@ def run_end_to_end(ctx):
                 for r_ in rows:
                     if rng.random() < 0.5:
                         r_ = {"repeat": rng.choice([1, 1, 2, 3, 120]), "cells": [(rng.choice([1, 1, 2, 3, 150]), v) for v in r_]}
+                        small = len(r_["cells"]) <= 2
                         if r_["repeat"] > 3 and any(v is not None for _, v in r_["cells"]):
-                            r_["repeat"] = 2
-                        r_["cells"] = [((rp_ if v is None or rp_ <= 3 else 2), v) for rp_, v in r_["cells"]]
+                            r_["repeat"] = 120 if small else 2          # a valued row repeated > 100 times must survive
+                        r_["cells"] = [((rp_ if v is None or rp_ <= 3 or (small and r_["repeat"] <= 3) else 2), v)
+                                       for rp_, v in r_["cells"]]
                     rich.append(r_)
                 if rng.random() < 0.5:
                     cut = rng.randint(0, len(rich))
